@@ -297,3 +297,23 @@ package keeper
 //@   ensures @collected_when_accepted err == nil && hit && accumulate ==> len(beacons) == len(old(beacons)) + 1 && beacons[len(old(beacons))] == v
 //@   ensures @earlier_items_kept forall j int :: {beacons[j]} 0 <= j && j < len(old(beacons)) ==> beacons[j] == old(beacons)[j]
 //@   ensures @nothing_collected_otherwise !(err == nil && hit && accumulate) ==> len(beacons) == len(old(beacons))
+
+// ================================================================ genesis export helpers (C15): read-only listings
+// (what they enumerate is not under contract; the export contract states what the document does with them)
+//@ func Keeper.IterateBeacons(ctx, cb)
+//@   inline
+//@ func Keeper.IterateBeaconTimestampsReverse(ctx, beaconID, cb)
+//@   inline
+//@ func Keeper.GetAllBeacons(ctx) (beacons)
+//@   props C15
+//@   pure
+//@   loop IterateBeacons.0: invariant it_store == bea_store && bea_store == old(bea_store)
+//@ func Keeper.GetAllBeaconTimestampsForExport(ctx, beaconID) (timestamps)
+//@   props C15
+//@   pure
+//@   loop IterateBeaconTimestampsReverse.0: invariant it_store == bea_store && bea_store == old(bea_store)
+// copy() on overlapping slices is outside the generator's subset: assumed contract on this four-line helper
+//@ func prependTimestamp(x, y) (r)
+//@   trusted shifts the list by one with the builtin copy and puts y first; touches no state
+//@   pure
+//@   ensures len(r) == len(x) + 1 && r[0] == y
